@@ -107,11 +107,12 @@ theorem scheduler_runs_are_executions (fuel seed : Nat) (s : XSt) :
   ⟨fun i s' h => xstep_sound s s' i h, run_reach fuel seed s false 0⟩
 
 /-- **C05 (testify)**: the code the testify template emits declares no shared state of its own – the only
-fields of the struct types it declares are testify's own objects (`mock.Mock`, `*mock.Mock`, `*mock.Call`),
+fields of the struct types it declares are testify's own objects (`mock.Mock`, `*mock.Mock`, `*mock.Call`,
+written with the qualifier the registry gives testify's package: `TESTIFY`),
 and it declares no package-level variable; every method body works on locals and on those objects, whose
 synchronisation is testify's. -/
 theorem testify_adds_no_shared_state :
-    Generated.testifyStructFields = ["*mock.Call", "mock *mock.Mock", "mock.Mock"] ∧
+    Generated.testifyStructFields = ["*TESTIFY.Call", "TESTIFY.Mock", "mock *TESTIFY.Mock"] ∧
     Generated.testifyPackageVars = [] := by decide
 
 /-- the discipline is necessary: an append after the unlock, an append under a read lock, and a read
